@@ -106,24 +106,26 @@ class BuildError(Exception):
     pass
 
 
-def ensure_oracle(profile='debug', log=print):
-    """build the native oracle against /repo's working tree; returns the binary path"""
-    tdir = os.path.join(CACHE, 'oracle-target')
-    with Lock('oracle'):
+def ensure_oracle(profile='debug', log=print, which='oracle'):
+    """build the native oracle against /repo's working tree; returns the binary path.
+    which='oracle' (hook wrappers) or 'oracle_tu' (probes needing real nodes, built with lightning's
+    functional test utilities)"""
+    tdir = os.path.join(CACHE, 'oracle-target' if which == 'oracle' else 'oracle-tu-target')
+    with Lock(which):
         t = time.time()
-        hd = os.path.join(VERIF, 'harness')
+        hd = os.path.join(VERIF, 'harness' if which == 'oracle' else 'harness_tu')
         lock_src = os.path.join(REPO, 'Cargo.lock')
         lock_dst = os.path.join(hd, 'Cargo.lock')
         if not os.path.exists(lock_dst):
             shutil.copy(lock_src, lock_dst)
-        cmd = ['cargo', 'build', '--offline', '--bin', 'oracle'] + (['--release'] if profile == 'release' else [])
+        cmd = ['cargo', 'build', '--offline', '--bin', which] + (['--release'] if profile == 'release' else [])
         r = run(cmd, cwd=hd, env={'CARGO_TARGET_DIR': tdir, 'RUSTFLAGS': '-Awarnings'})
         if r.returncode != 0:
             raise BuildError('oracle build failed:\n' + r.stderr[-3000:])
         dt = time.time() - t
         if dt > 5:
-            log('[build] oracle (%s): %.1fs' % (profile, dt))
-    return os.path.join(tdir, profile, 'oracle')
+            log('[build] %s (%s): %.1fs' % (which, profile, dt))
+    return os.path.join(tdir, profile, which)
 
 
 class Oracle:
@@ -139,7 +141,7 @@ class Oracle:
         while rest:
             r = subprocess.run([self.path], input='\n'.join(rest) + '\n', stdout=subprocess.PIPE,
                                stderr=subprocess.PIPE, text=True, timeout=600)
-            got = r.stdout.strip().split('\n') if r.stdout.strip() else []
+            got = [ln for ln in r.stdout.split('\n') if ln.startswith(('ok', 'panic', 'error'))]
             out.extend(got[:len(rest)])
             if len(got) >= len(rest):
                 break
@@ -160,8 +162,9 @@ class Binding:
     that the oracle output, once parsed by `parse`, must equal; panic: z3 Bool = encoding's
     'this call panics (dev profile)' condition."""
 
-    def __init__(self, name, args, outs, parse=None, panic=False, domain=None, interesting=None, line_fn=None):
+    def __init__(self, name, args, outs, parse=None, panic=False, domain=None, interesting=None, line_fn=None, which='oracle'):
         self.name, self.args, self.outs, self.panic = name, args, outs, panic
+        self.which = which
         self.line_fn = line_fn
         self.parse = parse or (lambda toks: [int(t) for t in toks])
         self.domain = domain            # optional: list of (lo, hi) per arg for validation sampling
@@ -234,6 +237,13 @@ class Session:
             self._oracle = Oracle(ensure_oracle('debug', self.log))
             self.build_s += time.time() - t
         return self._oracle
+
+    def oracle_tu(self):
+        if getattr(self, '_oracle_tu', None) is None:
+            t = time.time()
+            self._oracle_tu = Oracle(ensure_oracle('debug', self.log, which='oracle_tu'))
+            self.build_s += time.time() - t
+        return self._oracle_tu
 
     def engine(self, crate='lightning', unwind=8):
         E = X.Engine(self.mir(crate), self.decls(), unwind=unwind)
@@ -472,7 +482,7 @@ class Session:
                 cv = const_val(model.eval(a, model_completion=True))
                 vals.append(cv if cv is not None else 0)
             line = b.line(vals)
-            out = self.oracle().call([line])[0]
+            out = (self.oracle() if b.which == 'oracle' else self.oracle_tu()).call([line])[0]
             exp_panic = z3.is_true(model.eval(X.zbool(b.panic), model_completion=True)) if b.panic is not False else False
             expected = None
             if out.startswith('panic'):
@@ -484,7 +494,7 @@ class Session:
                 agree = (not exp_panic) and all(g is None or e is None or g == e for g, e in zip(got, expected))
             else:
                 got, agree = out, False
-            calls.append({'oracle_line': line, 'native_output': out, 'encoding_expected': 'panic' if exp_panic else expected})
+            calls.append({'oracle_line': line, 'native_output': out, 'encoding_expected': 'panic' if exp_panic else expected, 'oracle': b.which})
             if not agree:
                 reproduced = False
                 why = 'native output %s differs from the encoding (%s) for `%s`' % (out, 'panic' if exp_panic else expected, line)
